@@ -164,12 +164,29 @@ class LockAnalysis:
             self.run_function(f, self.entry[name], lambda b, r, kind, n, lc, st, _f=f: visit(_f, b, r, kind, n, lc, st))
 
 
-def guarded_accesses(la, guarded, res, rule, exceptions, prop_note=""):
+def write_target_ids(r):
+    """ids of the nodes in root r that are assigned to (lhs of =/op=, operand of ++/--)."""
+    out = set()
+    for x in walk(r):
+        if x.get("k") == "asg":
+            t = strip_casts(x["lhs"])
+            if t is not None and "id" in t:
+                out.add(t["id"])
+        elif x.get("k") == "un" and x.get("op", "").endswith(("++", "--")):
+            t = strip_casts(x["e"])
+            if t is not None and "id" in t:
+                out.add(t["id"])
+    return out
+
+
+def guarded_accesses(la, guarded, res, rule, exceptions, excuse=None):
     """T1: every access to (rec, field) in `guarded` (-> lock class) happens with the lock
-    in the lockset, unless the function is a frozen exception {fn: reason} or
-    {(fn, field): reason}."""
+    in the lockset, unless the function is a frozen exception {fn: reason} /
+    {(fn, field): reason}, or excuse(f, block, root, node, is_write) returns a reason
+    (semantic exception kinds decided per access: pre-publication, completed-job guard, ...)."""
     n_acc = 0
     by_fn = defaultdict(list)
+    wcache = {}
 
     def visit(f, b, r, kind, n, lc, st):
         nonlocal n_acc
@@ -181,26 +198,34 @@ def guarded_accesses(la, guarded, res, rule, exceptions, prop_note=""):
         need = guarded[key]
         n_acc += 1
         held = need in st
-        by_fn[(f.name, key)].append((held, r.get("l") or n.get("l") or 0, f))
+        why = None
+        if not held and excuse is not None:
+            rid = id(r)
+            if rid not in wcache:
+                wcache[rid] = write_target_ids(r)
+            why = excuse(f, b, r, n, n.get("id") in wcache[rid])
+        by_fn[(f.name, key)].append((held, why, f))
 
     la.visit_all(visit)
-    used_exc = set()
     for (fname, key), lst in sorted(by_fn.items()):
         f = lst[0][2]
-        unheld = [x for x in lst if not x[0]]
+        unheld = [x for x in lst if not x[0] and not x[1]]
+        excused = sorted({x[1] for x in lst if not x[0] and x[1]})
         ikey = "%s:%s.%s" % (fname, key[0], key[1])
         if not unheld:
-            res.ok(rule, ikey, f.loc, "%d accesses, all under %s.%s" % (len(lst), guarded[key][0], guarded[key][1]))
+            d = "%d accesses under %s.%s" % (len([x for x in lst if x[0]]), guarded[key][0], guarded[key][1])
+            if excused:
+                d += "; %d excused: %s" % (len([x for x in lst if not x[0]]), "; ".join(excused))
+            res.ok(rule, ikey, f.loc, d)
             continue
         exc = exceptions.get((fname, key[1])) or exceptions.get(fname)
         if exc:
-            used_exc.add((fname, key[1]) if (fname, key[1]) in exceptions else fname)
             res.ok(rule, ikey, f.loc, "exception: " + exc)
             continue
         res.bad(rule, ikey, f.loc,
-                "%d of %d accesses to %s.%s in %s without %s.%s held (function is not a frozen "
-                "pre-publication/quiescent exception)" % (len(unheld), len(lst), key[0], key[1], fname,
-                                                          guarded[key][0], guarded[key][1]))
+                "%d of %d accesses to %s.%s in %s without %s.%s held (and no frozen pre-publication/"
+                "quiescent/completed-job exception applies)" % (len(unheld), len(lst), key[0], key[1], fname,
+                                                                guarded[key][0], guarded[key][1]))
     res.count("guarded_accesses", n_acc)
     return n_acc
 
@@ -339,6 +364,13 @@ def must_signal(la, res, rule, table):
         return False
 
     def is_write(x, rec, field, kind):
+        if kind == "any+addr" and x.get("k") == "call" and x.get("c") not in LOCK + UNLOCK + WAIT + SIGNAL:
+            for a in x.get("a", []):
+                a = strip_casts(a)
+                if a.get("k") == "un" and a.get("op") == "&":
+                    t = strip_casts(a["e"])
+                    if t.get("k") == "mem" and t.get("rec") == rec and t["f"] == field:
+                        return True
         if x.get("k") == "asg":
             tgt = strip_casts(x["lhs"])
             if tgt.get("k") == "mem" and tgt.get("rec") == rec and tgt["f"] == field:
